@@ -334,14 +334,28 @@ def main():
         prog = [Instruction(OpCode.TIME_PATTERN, SetOp.INIT, pats[0])] + \
             [Instruction(OpCode.TIME_PATTERN, SetOp.UNION, p) for p in pats[1:]] + \
             [Instruction(OpCode.WAIT)]
+        # the unit mode in force is no part of what a pattern means: `units raw` / `units rgb`
+        # before the `time at`, or between it and the wait
+        from bardolph.controller.units import UnitMode
+        from bardolph.vm.vm_codes import Register
+        variant = n_or % 5
+        if variant in (1, 2):
+            prog.insert(0, Instruction(OpCode.MOVEQ, UnitMode.RAW if variant == 1 else UnitMode.RGB,
+                                       Register.UNIT_MODE))
+        elif variant in (3, 4):
+            prog.insert(len(prog) - 1, Instruction(OpCode.MOVEQ, UnitMode.RAW if variant == 3 else UnitMode.RGB,
+                                                   Register.UNIT_MODE))
+        stats.setdefault('or_list_unit_variants', {}).setdefault(variant, 0)
+        stats['or_list_unit_variants'][variant] += 1
         del trace[:]
         machine.run(prog)
         n_or += 1
         chk.count(1440)
         waits = [t for t in trace if t[0] == 'wait_until']
         if len(waits) != 1:
-            chk.violation('or-list-no-wait', 'WAIT after TIME_PATTERN did not wait for a pattern',
-                          {'patterns': lst, 'trace': repr(trace)})
+            chk.violation('or-list-no-wait', 'WAIT after TIME_PATTERN did not wait for a pattern '
+                          '(unit-mode variant {})'.format(variant),
+                          {'patterns': lst, 'trace': repr(trace), 'unit_variant': variant})
             continue
         got = imat(waits[0][1])
         want = 0
